@@ -62,6 +62,34 @@ Proof.
   pose proof (Z.div_mod (fst r * S) (snd r) ltac:(lia)) as Hdm. rewrite E in Hdm. lia.
 Qed.
 
+(* rounding *)
+Lemma fl_den_pos x : 0 < snd (fl x).
+Proof.
+  unfold fl. destruct (Z.abs (fst x) =? 0); [cbn; lia|]. cbv zeta.
+  match goal with |- 0 < snd (if ?c then _ else _) => destruct c eqn:Ee end; cbn [snd]; [lia|].
+  apply Z.leb_gt in Ee. apply Z.pow_pos_nonneg; lia.
+Qed.
+Lemma fl_zero x : fst x = 0 -> fl x = (0, 1).
+Proof. intros E. unfold fl. rewrite E. reflexivity. Qed.
+Lemma radd_comm x y : radd x y = radd y x.
+Proof. unfold radd. f_equal; lia. Qed.
+
+Lemma rsub_swap x y : rsub y x = (- fst (rsub x y), snd (rsub x y)).
+Proof. unfold rsub. cbn [fst snd]. f_equal; lia. Qed.
+(* rounding is odd *)
+Lemma fl_opp a b : fl (- a, b) = (- fst (fl (a, b)), snd (fl (a, b))).
+Proof.
+  unfold fl. cbn [fst snd]. rewrite Z.abs_opp, Z.sgn_opp.
+  destruct (Z.abs a =? 0); [reflexivity|]. cbv zeta.
+  match goal with |- (if ?c then _ else _) = _ => destruct c end; cbn [fst snd]; f_equal; ring.
+Qed.
+Lemma mdiff_f_swap D c1 c2 :
+  fst (mdiff_f D c2 c1) = - fst (mdiff_f D c1 c2) /\ snd (mdiff_f D c2 c1) = snd (mdiff_f D c1 c2).
+Proof.
+  unfold mdiff_f. rewrite (rsub_swap (mean_f D c1) (mean_f D c2)), fl_opp.
+  destruct (rsub (mean_f D c1) (mean_f D c2)) as [a b]. cbn [fst snd]. split; reflexivity.
+Qed.
+
 (* ------------------------------------------------------------------ *)
 (* inversion of stats_pair *)
 Lemma stats_pair_inv D S H lo hi T b cdfs s1 s2 x :
@@ -87,14 +115,14 @@ Qed.
 Lemma gene_in_inv D S c1 c2 sc m1 m2 :
   gene_in D S c1 c2 = Some (sc, m1, m2) ->
   exists q1 qd f, sc = (q1, qd, f) /\ to_S S (q1_r c1 c2) = Some q1 /\ to_S S (qdiff_r c1 c2) = Some qd /\
-    to_S S (fold_r D c1 c2) = Some f /\ to_S S (mean_r D c1) = Some m1 /\ to_S S (mean_r D c2) = Some m2.
+    to_S S (fold_f D c1 c2) = Some f /\ to_S S (mean_f D c1) = Some m1 /\ to_S S (mean_f D c2) = Some m2.
 Proof.
   unfold gene_in. intros Hg.
   destruct (to_S S (q1_r c1 c2)) as [a|]; [|discriminate Hg].
   destruct (to_S S (qdiff_r c1 c2)) as [b|]; [|discriminate Hg].
-  destruct (to_S S (fold_r D c1 c2)) as [c|]; [|discriminate Hg].
-  destruct (to_S S (mean_r D c1)) as [x1|]; [|discriminate Hg].
-  destruct (to_S S (mean_r D c2)) as [x2|]; [|discriminate Hg].
+  destruct (to_S S (fold_f D c1 c2)) as [c|]; [|discriminate Hg].
+  destruct (to_S S (mean_f D c1)) as [x1|]; [|discriminate Hg].
+  destruct (to_S S (mean_f D c2)) as [x2|]; [|discriminate Hg].
   inversion Hg; subst. exists a, b, c. repeat split; reflexivity.
 Qed.
 
@@ -144,7 +172,7 @@ Definition rne (r : rat) (S x : Z) : Prop := fst r * S <> x * snd r.          (*
 Definition off_threshold (th : thresholds) (D S : Z) (c1 c2 : cstat) : Prop :=
   rne (q1_r c1 c2) S (q1_th th) /\ rne (q1_r c1 c2) S (q1_min th) /\
   rne (qdiff_r c1 c2) S (qdiff_th th) /\ rne (qdiff_r c1 c2) S (qdiff_min th) /\
-  rne (fold_r D c1 c2) S (fold_th th) /\ rne (fold_r D c1 c2) S (fold_min th).
+  rne (fold_f D c1 c2) S (fold_th th) /\ rne (fold_f D c1 c2) S (fold_min th).
 
 Definition strictly_above_floors (th : thresholds) (g : score) : Prop :=
   let '(q1, qd, f) := g in q1_min th < q1 /\ qdiff_min th < qd /\ fold_min th < f.
@@ -160,16 +188,16 @@ Definition stat_crit (th : thresholds) (exact : bool) (D S : Z) (c1 c2 : cstat) 
     (* q1/S = max(pij_1, pij_2), qd/S = |pij_1 - pij_2| / max(..), f/S = |mean_1 - mean_2|, exactly *)
     q1 * snd (q1_r c1 c2) = fst (q1_r c1 c2) * S /\
     qd * snd (qdiff_r c1 c2) = fst (qdiff_r c1 c2) * S /\
-    f * snd (fold_r D c1 c2) = fst (fold_r D c1 c2) * S /\
+    f * snd (fold_f D c1 c2) = fst (fold_f D c1 c2) * S /\
     crit th exact (q1, qd, f) /\ crit_strict th exact (q1, qd, f).
 
 (* off the thresholds `on or above` and `strictly above` coincide *)
 Lemma off_threshold_strict th exact D S c1 c2 q1 qd f :
-  0 < snd (q1_r c1 c2) -> 0 < snd (qdiff_r c1 c2) -> 0 < snd (fold_r D c1 c2) ->
+  0 < snd (q1_r c1 c2) -> 0 < snd (qdiff_r c1 c2) -> 0 < snd (fold_f D c1 c2) ->
   off_threshold th D S c1 c2 ->
   q1 * snd (q1_r c1 c2) = fst (q1_r c1 c2) * S ->
   qd * snd (qdiff_r c1 c2) = fst (qdiff_r c1 c2) * S ->
-  f * snd (fold_r D c1 c2) = fst (fold_r D c1 c2) * S ->
+  f * snd (fold_f D c1 c2) = fst (fold_f D c1 c2) * S ->
   (crit th exact (q1, qd, f) -> crit_strict th exact (q1, qd, f)) /\
   (on_or_above_thresholds th (q1, qd, f) -> strictly_passes th (q1, qd, f)).
 Proof.
@@ -189,8 +217,8 @@ Definition rat_wf (D : Z) (c : cstat) : Prop := 0 < D /\ 0 <= c_ge1 c.
 
 Lemma q1_r_den c1 c2 : 0 < snd (q1_r c1 c2).
 Proof. unfold q1_r, pij, nmax1. destruct (rgt _ _); cbn [snd]; lia. Qed.
-Lemma fold_r_den D c1 c2 : 0 < D -> 0 < snd (fold_r D c1 c2).
-Proof. intros HD. unfold fold_r, mdiff_r, nmax1. cbn [snd]. nia. Qed.
+Lemma fold_f_den D c1 c2 : 0 < D -> 0 < snd (fold_f D c1 c2).
+Proof. intros _. unfold fold_f, mdiff_f. cbn [snd]. apply fl_den_pos. Qed.
 Lemma qdiff_r_den c1 c2 : 0 <= c_ge1 c1 -> 0 <= c_ge1 c2 -> 0 < snd (qdiff_r c1 c2).
 Proof.
   intros _ _. unfold qdiff_r.
@@ -227,10 +255,10 @@ Proof.
   exists q1, qd, f.
   pose proof (to_S_exact _ _ _ (q1_r_den c1 c2) T1) as X1.
   pose proof (to_S_exact _ _ _ (qdiff_r_den c1 c2 G1 G2) T2) as X2.
-  pose proof (to_S_exact _ _ _ (fold_r_den D c1 c2 HD) T3) as X3.
+  pose proof (to_S_exact _ _ _ (fold_f_den D c1 c2 HD) T3) as X3.
   split; [exact X1|]. split; [exact X2|]. split; [exact X3|]. split; [exact Hc|].
   exact (proj1 (off_threshold_strict _ (st_exact st) _ _ _ _ _ _ _ (q1_r_den c1 c2) (qdiff_r_den c1 c2 G1 G2)
-                  (fold_r_den D c1 c2 HD) Hoff X1 X2 X3) Hc).
+                  (fold_f_den D c1 c2 HD) Hoff X1 X2 X3) Hc).
 Qed.
 
 (* ------------------------------------------------------------------ *)
@@ -322,7 +350,7 @@ Theorem sdg_stats_complete : forall st mask D H lo hi T b cdfs s1 s2 v up g l1 l
   in_list mask g ->
   0 <= c_ge1 c1 -> 0 <= c_ge1 c2 -> off_threshold (st_th st) D (st_S st) c1 c2 ->
   to_S (st_S st) (q1_r c1 c2) = Some q1 -> to_S (st_S st) (qdiff_r c1 c2) = Some qd ->
-  to_S (st_S st) (fold_r D c1 c2) = Some f ->
+  to_S (st_S st) (fold_f D c1 c2) = Some f ->
   on_or_above_thresholds (st_th st) (q1, qd, f) ->
   nth_error v g = Some true.
 Proof.
@@ -330,9 +358,9 @@ Proof.
   assert (Hsp : strictly_passes (st_th st) (q1, qd, f)).
   { pose proof (to_S_exact _ _ _ (q1_r_den c1 c2) T1) as X1.
     pose proof (to_S_exact _ _ _ (qdiff_r_den c1 c2 G1 G2) T2) as X2.
-    pose proof (to_S_exact _ _ _ (fold_r_den D c1 c2 HD) T3) as X3.
+    pose proof (to_S_exact _ _ _ (fold_f_den D c1 c2 HD) T3) as X3.
     exact (proj2 (off_threshold_strict _ (st_exact st) _ _ _ _ _ _ _ (q1_r_den c1 c2) (qdiff_r_den c1 c2 G1 G2)
-                    (fold_r_den D c1 c2 HD) Hoff X1 X2 X3) Hge). }
+                    (fold_f_den D c1 c2 HD) Hoff X1 X2 X3) Hge). }
   unfold sdg_stats in Hs.
   destruct (stats_pair D (st_S st) H lo hi T b cdfs s1 s2) as [x|c] eqn:Ex; [|discriminate Hs].
   cbn [pbind] in Hs.
@@ -356,18 +384,6 @@ Qed.
 (* ------------------------------------------------------------------ *)
 (* the cases the property text names *)
 
-(* rounding *)
-Lemma fl_den_pos x : 0 < snd (fl x).
-Proof.
-  unfold fl. destruct (Z.abs (fst x) =? 0); [cbn; lia|]. cbv zeta.
-  match goal with |- 0 < snd (if ?c then _ else _) => destruct c eqn:Ee end; cbn [snd]; [lia|].
-  apply Z.leb_gt in Ee. apply Z.pow_pos_nonneg; lia.
-Qed.
-Lemma fl_zero x : fst x = 0 -> fl x = (0, 1).
-Proof. intros E. unfold fl. rewrite E. reflexivity. Qed.
-Lemma radd_comm x y : radd x y = radd y x.
-Proof. unfold radd. f_equal; lia. Qed.
-
 (* the float variance is exactly 0.0 in both clusters (n >= 1 each): var1/n1 + var2/n2 = 0.0 is not > 0, so
    denom = 1.0e-10, and nu_denom = 0 or NaN falls back to 1.0: nu = 0 (scipy's t.cdf(., df=0) is NaN, the
    p-value 1).  The float variance of a CONSTANT gene is exactly 0.0 when the constant is dyadic with few
@@ -376,7 +392,7 @@ Proof. unfold radd. f_equal; lia. Qed.
 Lemma welch_zero_variance D c1 c2 :
   1 <= c_n c1 -> 1 <= c_n c2 ->
   fst (var_f D c1) = 0 -> fst (var_f D c2) = 0 ->
-  exists nud, welch_gene D c1 c2 = TN_tiny (fst (mdiff_r D c1 c2)) (snd (mdiff_r D c1 c2)) 0 nud.
+  exists nud, welch_gene D c1 c2 = TN_tiny (fst (mdiff_f D c1 c2)) (snd (mdiff_f D c1 c2)) 0 nud.
 Proof.
   intros N1 N2 V1 V2. unfold welch_gene.
   destruct ((c_n c1 <? 1) || (c_n c2 <? 1)) eqn:En.
@@ -432,10 +448,9 @@ Proof.
   cbv zeta.
   rewrite (nu_denom_sym (kterm (var_f D c2) (c_n c2))).
   rewrite (radd_comm (fl (rdivz (var_f D c2) (c_n c2)))).
-  assert (Ed : fst (mdiff_r D c2 c1) = - fst (mdiff_r D c1 c2)) by (unfold mdiff_r; cbn [fst]; lia).
-  assert (Es : snd (mdiff_r D c2 c1) = snd (mdiff_r D c1 c2)) by (unfold mdiff_r; cbn [snd]; lia).
+  destruct (mdiff_f_swap D c1 c2) as [Ed Es].
   rewrite Ed, Es.
-  replace (- fst (mdiff_r D c1 c2) * - fst (mdiff_r D c1 c2)) with (fst (mdiff_r D c1 c2) * fst (mdiff_r D c1 c2)) by lia.
+  replace (- fst (mdiff_f D c1 c2) * - fst (mdiff_f D c1 c2)) with (fst (mdiff_f D c1 c2) * fst (mdiff_f D c1 c2)) by lia.
   rewrite Z.sgn_opp.
   destruct (0 <? _); reflexivity.
 Qed.
@@ -448,22 +463,20 @@ Proof. destruct g; cbn; try reflexivity. rewrite Z.abs_opp. reflexivity. Qed.
 Definition req (a b : rat) : Prop := fst a * snd b = fst b * snd a.
 
 Theorem welch_scores_swap D c1 c2 :
-  fold_r D c2 c1 = (fst (fold_r D c1 c2), snd (fold_r D c2 c1)) /\ snd (fold_r D c2 c1) = snd (fold_r D c1 c2) /\
+  fold_f D c2 c1 = (fst (fold_f D c1 c2), snd (fold_f D c2 c1)) /\ snd (fold_f D c2 c1) = snd (fold_f D c1 c2) /\
   req (q1_r c2 c1) (q1_r c1 c2) /\
   (0 <= c_ge1 c1 -> 0 <= c_ge1 c2 -> req (qdiff_r c2 c1) (qdiff_r c1 c2)).
 Proof.
-  assert (F1 : fst (fold_r D c2 c1) = fst (fold_r D c1 c2)).
-  { unfold fold_r, mdiff_r. cbn [fst].
-    replace (c_sum c2 * nmax1 (c_n c1) - c_sum c1 * nmax1 (c_n c2)) with (- (c_sum c1 * nmax1 (c_n c2) - c_sum c2 * nmax1 (c_n c1))) by lia.
-    apply Z.abs_opp. }
+  assert (F1 : fst (fold_f D c2 c1) = fst (fold_f D c1 c2)).
+  { unfold fold_f. cbn [fst]. rewrite (proj1 (mdiff_f_swap D c1 c2)). apply Z.abs_opp. }
   assert (Q : req (q1_r c2 c1) (q1_r c1 c2)).
   { unfold req, q1_r, rgt, pij. cbn [fst snd].
     destruct (c_ge1 c1 * nmax1 (c_n c2) <? c_ge1 c2 * nmax1 (c_n c1)) eqn:A;
     destruct (c_ge1 c2 * nmax1 (c_n c1) <? c_ge1 c1 * nmax1 (c_n c2)) eqn:B; cbn [fst snd];
     try apply Z.ltb_lt in A; try apply Z.ltb_lt in B; try apply Z.ltb_ge in A; try apply Z.ltb_ge in B; lia. }
   split; [|split; [|split]].
-  - rewrite <- F1. destruct (fold_r D c2 c1); reflexivity.
-  - unfold fold_r, mdiff_r. cbn [snd]. lia.
+  - rewrite <- F1. destruct (fold_f D c2 c1); reflexivity.
+  - unfold fold_f. cbn [snd]. exact (proj2 (mdiff_f_swap D c1 c2)).
   - exact Q.
   - intros G1 G2. unfold req, qdiff_r.
     set (d12 := Z.abs (c_ge1 c1 * nmax1 (c_n c2) - c_ge1 c2 * nmax1 (c_n c1))).
@@ -626,8 +639,8 @@ Proof.
   set (A := fl (radd (fl (rdivz (var_f D c1) (c_n c1))) (fl (rdivz (var_f D c2) (c_n c2))))).
   pose proof (fl_den_pos (radd (fl (rdivz (var_f D c1) (c_n c1))) (fl (rdivz (var_f D c2) (c_n c2))))) as PA.
   fold A in PA.
-  assert (Pdd : 0 < snd (mdiff_r D c1 c2)) by (unfold mdiff_r, nmax1; cbn [snd]; nia).
-  set (dn := fst (mdiff_r D c1 c2)) in *. set (dd := snd (mdiff_r D c1 c2)) in *.
+  assert (Pdd : 0 < snd (mdiff_f D c1 c2)) by (unfold mdiff_f; apply fl_den_pos).
+  set (dn := fst (mdiff_f D c1 c2)) in *. set (dd := snd (mdiff_f D c1 c2)) in *.
   assert (Hsg : -1 <= Z.sgn dn <= 1) by (destruct dn; cbn; lia).
   destruct (0 <? fst A) eqn:EA.
   - apply Z.ltb_lt in EA. unfold tnu_wfb. cbn [tnu_sq].
@@ -675,7 +688,7 @@ Theorem constant_gene_not_recorded : forall st mask D H lo hi T b t_cdf s1 s2 v 
   sdg_stats st mask D H lo hi T b t_cdf s1 s2 = POk (v, up) ->
   cstats_of s1 = POk l1 -> cstats_of s2 = POk l2 -> nth_error l1 g = Some c1 -> nth_error l2 g = Some c2 ->
   1 <= c_n c1 -> 1 <= c_n c2 -> fst (var_f D c1) = 0 -> fst (var_f D c2) = 0 ->
-  (exists nud, welch_gene D c1 c2 = TN_tiny (fst (mdiff_r D c1 c2)) (snd (mdiff_r D c1 c2)) 0 nud) /\
+  (exists nud, welch_gene D c1 c2 = TN_tiny (fst (mdiff_f D c1 c2)) (snd (mdiff_f D c1 c2)) 0 nud) /\
   nth_error (welch_pvalues H lo hi b t_cdf (welch_genes D l1 l2)) g = Some (2 * H) /\
   nth_error v g <> Some true.
 Proof.
@@ -683,7 +696,7 @@ Proof.
   destruct (welch_zero_variance D c1 c2 N1 N2 V1 V2) as (nud & Eg).
   assert (Hp : nth_error (welch_pvalues H lo hi b t_cdf (welch_genes D l1 l2)) g = Some (2 * H)).
   { unfold welch_pvalues, welch_genes. rewrite !nth_error_map, nth_error_combine, Hc1, Hc2. cbn [option_map fst snd].
-    rewrite Eg. rewrite (Hnan (TN_tiny (fst (mdiff_r D c1 c2)) (snd (mdiff_r D c1 c2)) 0 nud) 0 nud eq_refl eq_refl). f_equal. apply welch_p_nan; lia. }
+    rewrite Eg. rewrite (Hnan (TN_tiny (fst (mdiff_f D c1 c2)) (snd (mdiff_f D c1 c2)) 0 nud) 0 nud eq_refl eq_refl). f_equal. apply welch_p_nan; lia. }
   split; [exists nud; exact Eg|]. split; [exact Hp|].
   intros Hg.
   destruct (sdg_stats_sound st mask D H lo hi T b t_cdf s1 s2 v up g HD Hf Ho Hs Hg)
